@@ -18,6 +18,17 @@ Failures found after a step that *raised* are reported under the prefix "after-f
 speaks of sequences of additions/removals/..., a rejected call is C08's subject) and end the history, so a
 failure without that prefix is never the echo of an earlier rejected call.
 
+Signatures (one report per history: the most basic broken clause, see PRIORITY):
+    <clause>-after-<op>                 clause in {walk-raises, owner-wrong, reference-not-a-line, reaches-disconnected,
+                                        reaches-line-not-in-gfa, not-found-under-identifier, reference-field-raises,
+                                        reference-not-mirrored-to-<RT>, backreference-without-reference-to-<RT>,
+                                        reparse-fails}; op in {add-<RT>, rm, rmline-<RT>, disconnect, rename, settag, deltag}
+    after-failed-step-<clause>-after-<op>   the same, found right after a call that raised
+    foreign-exception                   a call raised something that is not a gfapy.Error (graph still closed)
+On the pinned tree: reaches-disconnected-after-rm/rmline/disconnect = DESIGN 7 #1; reference-not-mirrored-to-G = #2;
+*-after-rename = #3; after-failed-step-walk-raises-after-add-O/U and reaches-line-not-in-gfa-after-add-O/U = #4;
+reaches-line-not-in-gfa-after-add-L/C/S = #20 (two lines registered under one ID tag); foreign-exception = #7 #10 #11.
+
 NOT CHECKED (deliberately, the property text does not demand it or is silent):
   * header lines: g.lines lists per-tag copies of the header (g.headers) whose .gfa is None; they are views,
     not stored lines -> excluded from the ownership clause.
@@ -37,11 +48,11 @@ from harness import lib
 from harness.props import _hist as H
 
 ID = "C02"
-RULE = ("random histories (4-25 steps quick, up to 60 thorough) over segments A-D, edges e1-e3, gaps g1-g2, groups "
+RULE = ("exhaustive: every history of length <= 4 (quick) / <= 5 (thorough) over a 7-step alphabet per version (2 segments, 2 links, a path, rm, rename / segment, edge, gap, O, U, rm segment, rm edge); random: histories (4-25 steps quick, up to 60 thorough) over segments A-D, edges e1-e3, gaps g1-g2, groups "
         "p/o/u1-2: every GFA1/GFA2 record type, forward references (25%), self-links, hairpins, parallel links, "
         "several dependants per collection, nested and multi-line groups, rm by name/instance, disconnect, rename, "
         "tag edits, 12% calls meant to fail; 12% of histories start with the version unknown. Non-trivial: at least "
-        "one removal/disconnect/rename after at least three additions. Distinct by case hash.")
+        "one removal/disconnect/rename in a history with at least two additions. Distinct by case hash.")
 
 PROF = H.profile(p_fail=0.12)
 CASE_TIMEOUT = 60
@@ -50,6 +61,14 @@ COLLS = dict(lib.BACKREF_COLLS)
 COLLS["\n"] = ["paths", "sets"]
 COLLS["G"] = ["sets", "paths"]
 NAMED_RT = ("S", "P", "E", "G", "O", "U", "\n")
+
+
+def n_exhaustive(tier):
+    return H.ex_count(4 if tier == "quick" else 5)
+
+
+def exhaustive_case(i, tier):
+    return H.ex_case(i, 4 if tier == "quick" else 5)
 
 
 def budget(tier):
@@ -62,7 +81,7 @@ def gen_case(rng, tier, i):
 
 def nontrivial(case):
     ops = [s[0] for s in case["hist"]]
-    return sum(1 for o in ops if o == "add") >= 3 and any(o in ("rm", "rmline", "disconnect", "rename") for o in ops)
+    return sum(1 for o in ops if o == "add") >= 2 and any(o in ("rm", "rmline", "disconnect", "rename") for o in ops)
 
 
 def tags(case):
